@@ -45,7 +45,7 @@ func (RealFS) CreateEmpty(p string) error {
 
 // Op is one directory change.
 type Op struct {
-	Kind    string `json:"op"`             // write | tmp-rename | move-in | rename-away | rename-nonspec | unlink | link-in | symlink-in | create-empty | mkdir | rmtree
+	Kind    string `json:"op"`             // write | tmp-rename | move-in | rename-away | rename-nonspec | unlink | link-in | symlink-in | create-empty | truncate | mkdir | rmtree
 	Dir     string `json:"dir"`            // short directory name (d0, d1, ...)
 	Name    string `json:"name,omitempty"` // file name
 	Content string `json:"content,omitempty"`
@@ -166,6 +166,13 @@ func Apply(fs FS, root string, o Op, seq int) error {
 			return fmt.Errorf("not applicable")
 		}
 		return fs.Remove(path)
+	case "truncate":
+		// an existing file rewritten in place with no content (": > x.yaml"): the truncation is all
+		// the kernel reports, no data follows
+		if fi, err := os.Lstat(path); err != nil || !fi.Mode().IsRegular() || fi.Size() == 0 {
+			return fmt.Errorf("not applicable")
+		}
+		return fs.WriteFile(path, nil, 0o644)
 	case "create-empty":
 		if !exists(dir) || exists(path) {
 			return fmt.Errorf("not applicable")
@@ -243,6 +250,7 @@ func Alphabet(dirs []string, optionalDirs []string) []Op {
 		ops = append(ops, Op{Kind: "link-in", Dir: d, Name: "x.yaml", Content: "A"})
 		ops = append(ops, Op{Kind: "symlink-in", Dir: d, Name: "x.yaml", Content: "B"})
 		ops = append(ops, Op{Kind: "create-empty", Dir: d, Name: "x.yaml"})
+		ops = append(ops, Op{Kind: "truncate", Dir: d, Name: "x.yaml"})
 		ops = append(ops, Op{Kind: "move-over-preserving", Dir: d, Name: "x.yaml"})
 	}
 	for _, d := range optionalDirs {
